@@ -438,6 +438,19 @@ func judgeC17(w *World, r *cliRun, cmds []*svcCmd, clean bool, healthy *Conn, st
 					}
 				}
 				isResub := first && len(desired) > 0 && (cmd == nil || len(q.Subscriptions) > 1 || resubLooksLike(q, desired))
+				if first && !isResub {
+					// commands that were dequeued while the client was dead (future
+					// cancelled) have updated the set to restore without ever being
+					// seen on the wire: the first packet may be the resubscription of
+					// exactly that - even if a later command happens to look the same
+					got := map[string]int{}
+					for _, sb := range q.Subscriptions {
+						got[sb.Topic] = int(sb.QOS)
+					}
+					if cancelledExplain(cmds, desired, got, seenOnWire, x.seq) {
+						isResub = true
+					}
+				}
 				if isResub {
 					resubChecked++
 					got := map[string]int{}
@@ -557,6 +570,40 @@ func resubLooksLike(q *packet.Subscribe, desired map[string]int) bool {
 		}
 	}
 	return true
+}
+
+// cancelledExplain: got equals the wire-derived set plus a non-empty subset of
+// the (un)subscribe commands whose futures were cancelled before `before`.
+func cancelledExplain(cmds []*svcCmd, desired, got map[string]int, seenOnWire map[int]bool, before uint64) bool {
+	var amb []*svcCmd
+	for _, c := range cmds {
+		if (c.kind == "sub" || c.kind == "unsub") && !seenOnWire[c.tag] && c.fut != nil && c.fut.resolved && c.fut.err != nil && c.fut.at < before {
+			amb = append(amb, c)
+		}
+	}
+	if len(amb) == 0 || len(amb) > 10 {
+		return false
+	}
+	for mask := 1; mask < 1<<uint(len(amb)); mask++ {
+		m := map[string]int{}
+		for k, v := range desired {
+			m[k] = v
+		}
+		for i, c := range amb {
+			if mask&(1<<uint(i)) == 0 {
+				continue
+			}
+			if c.kind == "sub" {
+				m[c.topic] = c.qos
+			} else {
+				delete(m, c.topic)
+			}
+		}
+		if fmt.Sprint(m) == fmt.Sprint(got) {
+			return true
+		}
+	}
+	return false
 }
 
 // ambiguousExplains: commands that were dequeued while the client was already
